@@ -51,6 +51,11 @@ func c12Set(ctx *core.Ctx, i int, fs gen.FileSet, thorough bool) {
 		if bad {
 			return
 		}
+		if first == nil {
+			// the wall-clock cap fell between two file orders of this set: nothing was executed for this one
+			ctx.Cap("wall-clock cap inside a file set (not all file orders merged)")
+			return
+		}
 		if !st.Complete {
 			ctx.Cap("a schedule exploration hit its execution cap (4000) or the wall-clock cap")
 		}
